@@ -6,7 +6,7 @@ root = os.path.dirname(here)
 
 CHECKS = {
  'C01': dict(cat='model_checking', tech='trace validation of generated sessions against the TLA+ reference semantics SchemeCEK with TLC',
-   text='Every generated session (typed grammar over all core and derived forms, failure injection) and the hand-stated R7RS corpus is executed by the real VM (fresh, and after unrelated definitions) and validated form by form by TLC against the CEK machine of spec/SchemeCEK.tla: value, failure, error payload and output must match. Exhaustive only over the corpus; the grammar is sampled (400 quick / 20000 thorough sessions). In addition the second, implementation-shaped TLA+ semantics Machine.tla (Compile: core form -> instructions; Exec: one instruction) is bound to the code: for grammar sessions and scope skeletons TLC compiles every macro-expanded form itself and requires the real compiler listing to be equal instruction for instruction, then executes it and requires sp, bp, instruction offset and the value in acc to be equal before every instruction (Trace_Machine).',
+   text='Every generated session (typed grammar over all core and derived forms, failure injection) and the hand-stated R7RS corpus is executed by the real VM (fresh, and after unrelated definitions) and validated form by form by TLC against the CEK machine of spec/SchemeCEK.tla: value, failure, error payload and output must match. Exhaustive only over the corpus; the grammar is sampled (400 quick / 20000 thorough sessions). In addition the second, implementation-shaped TLA+ semantics Machine.tla (Compile: core form -> instructions; Exec: one instruction) is bound to the code: for grammar sessions and scope skeletons TLC compiles every macro-expanded form itself and requires the real compiler listing to be equal instruction for instruction, then executes it and requires sp, bp, instruction offset, the value in acc and the slot on top of the control stack to be equal before every instruction (Trace_Machine).',
    note='Trusted: TLC/SANY/Json module, the Cell->JSON projection, my reading of R7RS encoded in SchemeCEK (regression: corpus/r7rs.scm). Sessions leaving the model (big integers, R7RS-unspecified steps) are abandoned and counted.', ref='5 C01'),
 
  'C02': dict(cat='model_checking', tech='trace validation of scope-skeleton sessions against the TLA+ reference semantics SchemeCEK (environment = name->location) with TLC',
